@@ -1,19 +1,33 @@
 # C13 — background task manager (task/task.go)
 PROPS["C13"] = dict(
     props_file="Properties/C13.v",
-    harnesses=[dict(cmd="task", mod="root", model="Model.Task", quick=600, thorough=20000, shard=100,
-                    require=["op.invoke", "op.invoke.manual", "op.invoke.prompt", "op.prio", "op.done", "op.silence", "op.finish", "op.fast",
+    harnesses=[dict(cmd="task", mod="root", model="Model.Task", quick=500, thorough=20000, shard=100, race=1500,
+                    require=["op.invoke", "op.invoke.manual", "op.invoke.prompt", "op.invoke.timeout", "op.prio", "op.done", "op.silence", "op.finish", "op.fast",
                              "conc.1", "conc.2", "conc.3",
                              "ev.invoke", "ev.acquire", "ev.decide", "ev.start", "ev.finish", "ev.release", "ev.return",
                              "ev.prio-begin", "ev.prio-end", "ev.prio-dec", "ev.body-done",
                              # set up by the script itself (the manager's reactions - cancel, join, retry, deferred decision - are NOT
                              # required here: their absence is a symptom of a broken manager and must surface as a VIOLATION)
                              "sched.prio-while-body-running", "sched.prio-nested", "sched.invoke-while-not-quiet",
-                             "sched.invoke-while-slots-busy"])],
+                             "sched.invoke-while-slots-busy"]),
+               # the REAL callers: fs/layer (*layer).BackgroundFetch / Prefetch on a real eStargz layer over a scripted blob
+               dict(cmd="bgfetch", mod="root", model="Model.Task", quick=120, thorough=4000, shard=40, race=400,
+                    require=["op.bgfetch", "op.prefetch", "op.prio", "op.done", "op.silence", "op.release", "conc.1", "conc.2", "conc.3",
+                             "ev.invoke", "ev.acquire", "ev.decide", "ev.start", "ev.finish", "ev.release",
+                             "ev.prio-begin", "ev.prio-end", "ev.prio-dec",
+                             "sched.prefetch.ok", "sched.prefetch.error", "sched.prefetch.panic", "sched.prio-while-read-running",
+                             "sched.bgfetch-while-not-quiet", "sched.release", "sched.reads"]),
+               # the premise "begin/end pairs": every body in the repository that calls Do/DonePrioritizedTask, re-extracted from the source
+               dict(cmd="taskpairs", mod="root", model="Model.TaskPairs", quick=150, thorough=5000, shard=50,
+                    require=["site", "site.fs/fs.go", "site.fs/layer/layer.go", "site.store/manager.go", "synthetic",
+                             "verdict.rule-true.leak-false", "verdict.rule-false.leak-true", "verdict.rule-false.leak-false"])],
     rule="scripted schedules on the real task.BackgroundTaskManager (concurrency 1..3, up to 4 concurrent invocations whose bodies "
          "finish / react to cancellation only when the script says so (manual) or on cancellation (prompt), up to 3 overlapping prioritized "
          "begin/end pairs, silence periods ended by the script, each op either followed by a settle or racing with the manager's goroutines); the manager's decisions are recorded through the verif hooks in its own lock order; "
-         "non-trivial = at least one cancellation and >= 2 invocations; distinct = distinct (concurrency, event trace)",
+         "non-trivial = at least one cancellation and >= 2 invocations; distinct = distinct (concurrency, event trace). The task body is a replica of "
+         "fs/layer backgroundFetch's closure (captured retN/retErr and buffer written by the body; some contexts time out after 50us..3ms). "
+         "bgfetch: the REAL (*layer).BackgroundFetch / Prefetch on a real eStargz layer (7 layouts) over a scripted remote.Blob, same script ops. "
+         "taskpairs: every function body of the repository that calls Do/DonePrioritizedTask (re-extracted from the source each run) + random statement trees",
     assumptions=[
         "sync.Mutex, sync.Cond (no lost wake-up: the counter is re-read under the cond lock before Wait, Broadcast is sent under it after the decrement), "
         "semaphore.Weighted, channel close/select and context cancellation behave as documented; the atomic sub-steps are those delimited by the notify "
@@ -29,13 +43,17 @@ PROPS["C13"] = dict(
                "semaphore accounting; at most one running execution per invocation, only while the invoker holds a slot and waits in the select or for <-done) "
                "by induction over fold_left step; start decision only when quiet; cancellation is the invoker's only step while its body runs after a prioritized begin; "
                "running bodies <= concurrency; no self-overlap, none running at return; completion within a proven measure and deadlock freedom once "
-               "prioritized work stops; the pre-fix code refuted by a 15-step witness; monitor soundness. The model is run as a monitor against task/task.go "
+               "prioritized work stops; the pre-fix code refuted by a 15-step witness; monitor soundness; callers: a body of the form Do; defer Done leaves the counter "
+               "unchanged on every execution path (C13_pairs_balanced); exhaustive in-Coq exploration of all interleavings of up to 3 invocations x 3 prioritized pairs (search aid). The model is run as a monitor against task/task.go "
                "on scripted schedules every run, and the property clauses are re-checked model-free on the implementation.",
     level_note="Model (coq/Model/Task.v) is hand-written and follows the code WITH patches/C13-fix-1.diff (wait for <-done after cancel()); sync primitives, "
                "context and the Go scheduler are modelled by contract; the tie is the acceptance of the hook event trace by the model's monitor.",
     technique="Coq proof: invariant preserved by every atomic step, lifted to all reachable states; measure argument for completion; "
               "correspondence = trace acceptance by the model (vm_compute) + model-free oracle on the implementation",
-    trusted=["task/task.go is modelled by hand in coq/Model/Task.v; tie = every hook event observed on the implementation (invoke, acquire, decide(start?), "
+    trusted=["fs/layer, fs/fs.go, store/manager.go callers: their Do/Done call structure is abstracted by the taskpairs harness (go/ast) into Model/TaskPairs.v statements "
+             "(panics in any statement except the defer statement itself); Mount/Check/on-demand reads are not driven dynamically, only Prefetch and BackgroundFetch are",
+             "bgfetch: body completions are not observable per invocation through the hooks and are inferred directly before the join/finish event that observed them",
+             "task/task.go is modelled by hand in coq/Model/Task.v; tie = every hook event observed on the implementation (invoke, acquire, decide(start?), "
              "start, cancel, join, finish, release, body-done(cancelled?), return, prio-begin/end/dec) must be an enabled model step, final counters must match",
              "the verif hooks in task/task.go (patches/C13-hook.diff) only call a sink; in the harness the sink serialises the log with the atomic action it "
              "reports (\"*-pre\" events) and gates the end of the silence period"],
